@@ -1118,6 +1118,40 @@ func c05QueueIds(t *testing.T, r *Rec) {
 		)
 	}
 
+	// c05StoredLine / c05StoredDigest: for a put on a turnstone queue (every third queue) the op line
+	// carries the message (`putm`), and the observed output carries GetBytesToSign of the message AS
+	// STORED - hashed with the id the put returned.  This ties the id inside the signing bytes to the
+	// id counter (joint model jqStep).
+	cdc := fa.App().AppCodec()
+	storedDigest := func(ctx sdk.Context, qname string, id uint64) string {
+		msgs, err := fa.App().ConsensusKeeper.GetMessagesFromQueue(ctx, qname, 0)
+		if err != nil {
+			return "error"
+		}
+		for _, m := range msgs {
+			if m.GetId() == id {
+				b, err := m.GetBytesToSign(cdc)
+				if err != nil {
+					return "error"
+				}
+				return hex.EncodeToString(b)
+			}
+		}
+		return "missing"
+	}
+	msgLine := func(cm consensus.ConsensusMsg) (string, bool) {
+		em, ok := cm.(*evmtypes.Message)
+		if !ok {
+			return "", false
+		}
+		slc := em.GetSubmitLogicCall()
+		if slc == nil {
+			return "", false
+		}
+		return fmt.Sprintf("slc %s %s %s %s %s %s %d", c05X([]byte(em.TurnstoneID)), c05X([]byte(em.AssigneeRemoteAddress)),
+			c05X([]byte(slc.HexContractAddress)), c05X(slc.Payload), c05Fees(slc.Fees), c05X(slc.SenderAddress), slc.Deadline), true
+	}
+
 	var lastFresh uint64 // monitor: every fresh id of the whole run is larger than all before
 	cases := r.N / 3
 	if cases < 20 {
@@ -1147,7 +1181,8 @@ func c05QueueIds(t *testing.T, r *Rec) {
 				}
 				switch {
 				case choice < 5: // fresh put
-					id, err := k.PutMessageInQueue(ctx, queues[qi].name, queues[qi].mk(), &consensus.PutOptions{RequireSignatures: true, RequireGasEstimation: r.Rng.Intn(2) == 0})
+					cm := queues[qi].mk()
+					id, err := k.PutMessageInQueue(ctx, queues[qi].name, cm, &consensus.PutOptions{RequireSignatures: true, RequireGasEstimation: r.Rng.Intn(2) == 0})
 					if oi == 0 {
 						if err != nil {
 							return fmt.Errorf("first put failed: %w", err)
@@ -1163,7 +1198,15 @@ func c05QueueIds(t *testing.T, r *Rec) {
 						lastFresh = id
 						live = append(live, liveT{qi, id})
 					}
-					rec(fmt.Sprintf("put %d 0", qi+1), out)
+					if ml, ok := msgLine(cm); ok {
+						if err == nil {
+							out += " " + storedDigest(ctx, queues[qi].name, id)
+						}
+						rec(fmt.Sprintf("putm %d 0 %d %s", qi+1, base, ml), out)
+						r.Stat("idop:putm")
+					} else {
+						rec(fmt.Sprintf("put %d 0", qi+1), out)
+					}
 					r.Stat("idop:put")
 				case choice < 8: // replace: mostly an existing id, in the right or a wrong queue
 					var target uint64
@@ -1179,7 +1222,8 @@ func c05QueueIds(t *testing.T, r *Rec) {
 					}
 					// a message of the type of the TARGET queue
 					var nilOpts *consensus.PutOptions = &consensus.PutOptions{MsgIDToReplace: target}
-					id, err := k.PutMessageInQueue(ctx, queues[tq].name, queues[tq].mk(), nilOpts)
+					cm := queues[tq].mk()
+					id, err := k.PutMessageInQueue(ctx, queues[tq].name, cm, nilOpts)
 					out := "notfound"
 					if err == nil {
 						out = fmt.Sprintf("ok %d", id-base)
@@ -1187,7 +1231,15 @@ func c05QueueIds(t *testing.T, r *Rec) {
 					} else {
 						r.Stat("idop:replace-notfound")
 					}
-					rec(fmt.Sprintf("put %d %d", tq+1, target-base), out)
+					if ml, ok := msgLine(cm); ok {
+						if err == nil {
+							out += " " + storedDigest(ctx, queues[tq].name, id)
+							r.Stat("idop:replacem-ok")
+						}
+						rec(fmt.Sprintf("putm %d %d %d %s", tq+1, target-base, base, ml), out)
+					} else {
+						rec(fmt.Sprintf("put %d %d", tq+1, target-base), out)
+					}
 				default: // delete
 					var target uint64
 					tq := qi
